@@ -346,10 +346,15 @@ func c04R4(c *Ctx) {
 		}
 		return ""
 	}
+	// url.Parse and literals end the walk; ResolveReference / JoinPath do not:
+	// they copy the query and fragment of their argument verbatim, so both the
+	// receiver and the argument must themselves be well-formed URLs
 	origins, visited := f.Backward(f.val(g.link), func(n int) bool {
 		k := f.keys[n]
-		if k.kind == nValue && isProducer(k.v) != "" {
-			return true
+		if k.kind == nValue {
+			if p := isProducer(k.v); p == "url.Parse" || p == "literal" {
+				return true
+			}
 		}
 		if k.kind == nMem {
 			if a, ok := k.v.(*ssa.Alloc); ok && isProducer(a) != "" {
